@@ -908,7 +908,7 @@ pub fn run_unsubscribe(rep: &mut mc::Report) -> (u64, Vec<Value>) {
     let mut n = 0;
     let mut samples = vec![];
     for (ls, fire_and_forget) in [(false, false), (false, true), (true, false), (true, true)] {
-        for pattern in [false, true] {
+        for (pattern, sub_async) in [(false, false), (true, false), (false, true), (true, true)] {
             if ls && pattern {
                 continue;
             }
@@ -924,7 +924,17 @@ pub fn run_unsubscribe(rep: &mut mc::Report) -> (u64, Vec<Value>) {
                 let g2 = got.clone();
                 tokio::spawn(async move {
                     let r: Result<u64, String> = async {
-                        let tid = if ls {
+                        let tid = if sub_async {
+                            // the subscription itself was made fire-and-forget: the client holds no
+                            // local callback for it
+                            if ls {
+                                client.subscribe_ls_async(Some("k".into())).await.map_err(|e| e.to_string())?
+                            } else if pattern {
+                                client.psubscribe_async("k/#".into(), false, true, None).await.map_err(|e| e.to_string())?
+                            } else {
+                                client.subscribe_async("k/x".into(), false, true).await.map_err(|e| e.to_string())?
+                            }
+                        } else if ls {
                             let (mut rx, tid) = client.subscribe_ls(Some("k".into())).await.map_err(|e| e.to_string())?;
                             tokio::spawn(async move { while rx.recv().await.is_some() { g2.fetch_add(1, Ordering::SeqCst); } });
                             tid
@@ -981,7 +991,7 @@ pub fn run_unsubscribe(rep: &mut mc::Report) -> (u64, Vec<Value>) {
                 Ok(())
             });
             drop(rt);
-            let case = json!({"ls": ls, "pattern": pattern, "fire_and_forget": fire_and_forget});
+            let case = json!({"ls": ls, "pattern": pattern, "fire_and_forget": fire_and_forget, "subscribed_fire_and_forget": sub_async});
             samples.push(case.clone());
             if let Err(e) = res {
                 if e.starts_with("MACHINERY") {
